@@ -37,7 +37,7 @@ CONFIGS = [
      ['mesh', 'face_node', 'node_x', 'node_y', 'edge_face']),
     ('ugrid edge_node only', inputs.ugrid, {'edges': 'edge_node'}, ['mesh', 'face_node', 'node_x', 'node_y', 'edge_node']),
 ]
-EDITS = ['value', 'dtype', 'reshape', 'rename', 'attr-add', 'attr-add-underscore', 'attr-change', 'attr-remove', 'encoding-dtype']
+EDITS = ['value', 'value-narrow-encoding', 'dtype', 'reshape', 'rename', 'attr-add', 'attr-add-underscore', 'attr-change', 'attr-remove', 'encoding-dtype']
 
 
 def scenarios(tier):
@@ -252,6 +252,21 @@ def _edited(c, ds, G, gi, edit):
         arr = np.NDArray(old.shape, lambda i: core.s_ite(s_and(*[s_eq(a, b) for a, b in zip(i, idx)]), new_val, old.fn(i))
                          if not isinstance(ov, SFloat) else _ite_float(s_and(*[s_eq(a, b) for a, b in zip(i, idx)]), new_val, old.fn(i)), old.dtype)
         ds2._vars[g] = Variable(v.dims, arr, v.attrs, v.encoding)
+        return ds2, ('value', idx)
+    if edit == 'value-narrow-encoding':
+        # the encoding remembers a narrower type than the values held (float32 on disk, float64 in memory): the key follows the values held
+        if not v.arr.shape or v.arr.dtype.name != 'float64':
+            return None
+        idx = _skolem_index(c, v.arr.shape, 'edit')
+        old = v.arr
+        new_val = sym_array(c, 'newval', (), 'real').fn(())
+        ov = old.fn(idx)
+        c.assume(s_not(ov.same_bits(new_val)) if isinstance(ov, SFloat) else s_not(s_eq(ov, new_val)))
+        arr = np.NDArray(old.shape, lambda i: _ite_float(s_and(*[s_eq(a, b) for a, b in zip(i, idx)]), new_val, old.fn(i)), old.dtype)
+        enc = dict(v.encoding)
+        enc['dtype'] = np.FLOAT32
+        ds._vars[g] = Variable(v.dims, v.arr, v.attrs, enc)
+        ds2._vars[g] = Variable(v.dims, arr, v.attrs, dict(enc))
         return ds2, ('value', idx)
     if edit == 'dtype':
         newdt = np.FLOAT32 if v.arr.dtype.name != 'float32' else np.FLOAT64
